@@ -14,6 +14,11 @@ chk("C20",
     TRUST + "Not decided: depinject resolution, proto registry contents, run-time argument parsing, a node producing blocks.",
     "custom lint over type-checked composite literals + struct tags (go/types constant evaluation)", "DESIGN.md section 4 C20")
 
+chk("C07",
+    "Structural necessary conditions on every path of the block hook's call tree: (BB-EXHAUST) for each of the five AuctionStatus constants, with every callee succeeding, abstract exploration over the finite status domain reaches no failure exit or panic; (BB-ERRPROP) for every call site that can return an error, every exit reached after that call failed is itself a failure (never dropped, overwritten by a later loop iteration, or replaced by nil) — 59 call sites; (BB-WIRE) the module's BeginBlock reaches the per-auction processing; (DIV-GUARD) every Dec division's divisor is a positivity-checked price (provenance followed through String()/map key/MustNewDecFromStr) or is guarded by a dominating zero test. Static because the quantifier is over every reachable state and every injected failure: the rule quantifies over all paths instead of sampled states.",
+    TRUST + "BB-EXHAUST assumes dependency calls succeed and stored records are well-formed. Not decided: general panic freedom (address parsing, negative coins, bank failures, gas).",
+    "abstract path exploration over go/ssa with a finite value domain (nil/non-nil, enum constants) + per-call-site error-propagation obligations + dominance/provenance for divisors", "DESIGN.md section 4 C07")
+
 PENDING = {}  # property -> reason (kept current as checks are added)
 ALL = ["C%02d" % i for i in range(1, 21)]
 for p in ALL:
